@@ -81,6 +81,10 @@ def select(harnesses, prop, tier, only=None):
                 continue
             sel.append(h)
             break
+    # thorough always includes the quick set
+    for n in (qs or []):
+        if n in harnesses and harnesses[n] not in sel:
+            sel.append(harnesses[n])
     if only:
         sel = [h for h in sel if any(o in h.name for o in only)]
     return sorted(sel, key=lambda h: h.name)
